@@ -352,6 +352,86 @@ type cellStringer struct{ n int }
 
 func (c cellStringer) String() string { return fmt.Sprintf("<%d>", c.n) }
 
+// hugeGrids: arrays of more than 2^25 one-byte cells in very wide, very tall and lop-sided shapes (a
+// strategy that changes with the number of cells - parallel bands, blocked copies - shows only here). One
+// pass each: New2DFilled, a full Fill, a Fill of an inner rectangle, single Sets at the corners, Row,
+// Clone; every cell is read back after each step against a function model (O(cells) per step).
+func hugeGrids(r *ev.Run, shapes [][2]int) int {
+	calls := 0
+	for _, sh := range shapes {
+		w, h := sh[0], sh[1]
+		rp := map[string]any{"w": w, "h": h, "family": "huge-grid"}
+		bad := func(what string, x, y int, got, want uint8) {
+			e.Fail("huge-grid", rp, "%dx%d array of bytes, %s: cell (%d,%d) = %d, want %d", w, h, what, x, y, got, want)
+		}
+		// want(x,y) is the model: a stack of rectangles over a base value
+		type rect struct {
+			x1, y1, x2, y2 int
+			v              uint8
+		}
+		var layers []rect
+		base := uint8(7)
+		model := func(x, y int) uint8 {
+			for i := len(layers) - 1; i >= 0; i-- {
+				l := layers[i]
+				if x >= l.x1 && x <= l.x2 && y >= l.y1 && y <= l.y2 {
+					return l.v
+				}
+			}
+			return base
+		}
+		check := func(a arrays.Array2D[uint8], what string) bool {
+			calls++
+			for y := 0; y < h; y++ {
+				row := a.Row(y)
+				if len(row) != w {
+					e.Fail("huge-grid", rp, "%dx%d array, %s: Row(%d) has length %d", w, h, what, y, len(row))
+					return false
+				}
+				for x, got := range row {
+					if want := model(x, y); got != want {
+						bad(what, x, y, got, want)
+						return false
+					}
+				}
+			}
+			return true
+		}
+		if p, m := enum.Catch(func() {
+			a := arrays.New2DFilled(w, h, base)
+			if !check(a, "after New2DFilled") {
+				return
+			}
+			a.Fill(0, 0, w-1, h-1, 9)
+			layers = append(layers, rect{0, 0, w - 1, h - 1, 9})
+			if !check(a, "after Fill of the whole array") {
+				return
+			}
+			x1, y1, x2, y2 := w/3, h/3, w-1-w/5, h-1
+			a.Fill(x2, y2, x1, y1, 11) // corners given in the other order
+			layers = append(layers, rect{x1, y1, x2, y2, 11})
+			if !check(a, "after Fill of an inner rectangle reaching the last row") {
+				return
+			}
+			for i, c := range [][2]int{{0, 0}, {w - 1, 0}, {0, h - 1}, {w - 1, h - 1}, {w / 2, h / 2}} {
+				a.Set(c[0], c[1], uint8(100+i))
+				layers = append(layers, rect{c[0], c[1], c[0], c[1], uint8(100 + i)})
+			}
+			if !check(a, "after Set at the corners") {
+				return
+			}
+			c := a.Clone()
+			a.Fill(0, 0, w-1, 0, 1)
+			if !check(c, "clone after a Fill of the original's first row") {
+				return
+			}
+		}); p {
+			e.Fail("huge-grid|panic", rp, "%dx%d array of bytes: %s", w, h, m)
+		}
+	}
+	return calls
+}
+
 func main() {
 	ev.GuardFor("C08")
 	r := ev.Start("C08")
@@ -518,6 +598,13 @@ func main() {
 	}
 	r.Set("large_size_family_calls", famCalls)
 	r.Sample(map[string]any{"w": 3, "h": 2, "ops": []string{"Set(2,0,..)", "Get(0,1)"}})
+	{
+		hs := [][2]int{{8192, 4100}, {4099, 8200}, {1, 1<<25 + 3}}
+		if r.Thorough() {
+			hs = append(hs, [2]int{1<<25 + 3, 1}, [2]int{3, 1<<24 + 1}, [2]int{16385, 16387}, [2]int{1<<27 + 5, 2})
+		}
+		r.Set("huge_grid_checks", hugeGrids(r, hs))
+	}
 	// element types: the same cell model over strings, floats, structs, pointers, interfaces, slices
 	typedGrids("string", func(i int) string { return []string{"", "a b", "x", "[", "]", "0"}[i%6] + fmt.Sprint(i) }, func(a, b string) bool { return a == b })
 	typedGrids("float64", func(i int) float64 {
@@ -564,5 +651,5 @@ func main() {
 		}
 		return fmt.Errorf("e%d", i)
 	}, func(a, b error) bool { return a == b })
-	e.Finish(fmt.Sprintf("every shape w,h in 0..%d from the all-cells-distinct labelling: every Set/Get with x in -1..w, y in -1..h; Row(y) and RowSpan(x1<=x2,y) incl. out of range with write-through both ways; Fill for every pair of corners in either order incl. one coordinate outside; Clone; String; the same model over 12 element types (strings, floats incl. NaN and -0, structs, pointers to structs/slices/maps/arrays, interfaces, slices, maps, Stringers, errors) on shapes up to 3x3 with String rendered cell by cell; every ordered pair of operations for shapes up to %dx%d; New2DFilled; New2DFromJagged for every row count 0..h+1 and row lengths 0..w+1; oracle: cell-grid model with frame condition (exactly the intended cells change); non-trivial = non-square shape", maxDim, pairDim, pairDim))
+	e.Finish(fmt.Sprintf("every shape w,h in 0..%d from the all-cells-distinct labelling: every Set/Get with x in -1..w, y in -1..h; Row(y) and RowSpan(x1<=x2,y) incl. out of range with write-through both ways; Fill for every pair of corners in either order incl. one coordinate outside; Clone; String; arrays of more than 2^25 byte cells in wide, tall and lop-sided shapes (full and partial Fill, corner Sets, Clone, every cell read back); the same model over 12 element types (strings, floats incl. NaN and -0, structs, pointers to structs/slices/maps/arrays, interfaces, slices, maps, Stringers, errors) on shapes up to 3x3 with String rendered cell by cell; every ordered pair of operations for shapes up to %dx%d; New2DFilled; New2DFromJagged for every row count 0..h+1 and row lengths 0..w+1; oracle: cell-grid model with frame condition (exactly the intended cells change); non-trivial = non-square shape", maxDim, pairDim, pairDim))
 }
